@@ -382,8 +382,12 @@ func keyInjectivity(r *core.Run) {
 		{"PacketRelayerKey", func(i int) []byte { return host.PacketRelayerKey(nm(i), nm(i+1), uint64(i)*7919) }},
 		{"tendermint.ProcessedTimeKey", func(i int) []byte { return tmtypes.ProcessedTimeKey(hs[i%len(hs)]) }},
 		{"tendermint.IterationKey", func(i int) []byte { return tmtypes.IterationKey(hs[i%len(hs)]) }},
-		{"eth.EthHeaderIndexKey", func(i int) []byte { return ethtypes.EthHeaderIndexKey(common.BigToHash(big.NewInt(int64(i)*104729)), uint64(i)) }},
-		{"eth.EthRootMainKey", func(i int) []byte { return ethtypes.EthRootMainKey(common.BigToHash(big.NewInt(int64(i)*104729)), uint64(i)) }},
+		{"eth.EthHeaderIndexKey", func(i int) []byte {
+			return ethtypes.EthHeaderIndexKey(common.BigToHash(big.NewInt(int64(i)*104729)), uint64(i))
+		}},
+		{"eth.EthRootMainKey", func(i int) []byte {
+			return ethtypes.EthRootMainKey(common.BigToHash(big.NewInt(int64(i)*104729)), uint64(i))
+		}},
 	}
 	for _, b := range builders {
 		const k = 24
@@ -463,10 +467,38 @@ func storeReadBack(r *core.Run) {
 			}
 			return out
 		}
+		// every character a chain name may carry appears in some name ('+' and '#' mean something else to URL decoders)
+		for i, ch := range []string{"+", "#", "<", "[", "."} {
+			j := 2 + i%4
+			if cand := names[j][:minI(len(names[j]), 50)] + ch + "n"; host.ClientIdentifierValidator(cand) == nil {
+				names[j] = cand
+			}
+		}
 		comm, acks, recs := mk(), mk(), mk()
 		for _, t := range comm {
 			pk.SetPacketCommitment(ctx, t.S, t.D, t.Q, t.V)
 		}
+		// the path a membership proof of a stored commitment / acknowledgement is verified under (store prefix + host path,
+		// turned back into a key) is the key the entry was written under
+		for kind, set := range map[string]map[string]tripleRec{"commitment": comm, "acknowledgement": acks} {
+			for _, t := range set {
+				pth, key := host.PacketCommitmentPath(t.S, t.D, t.Q), host.PacketCommitmentKey(t.S, t.D, t.Q)
+				if kind == "acknowledgement" {
+					pth, key = host.PacketAcknowledgementPath(t.S, t.D, t.Q), host.PacketAcknowledgementKey(t.S, t.D, t.Q)
+				}
+				mp, err := commitmenttypes.ApplyPrefix(commitmenttypes.MerklePrefix{KeyPrefix: []byte(host.StoreKey)}, commitmenttypes.NewMerklePath(pth))
+				var got []byte
+				if err == nil {
+					got, err = mp.GetKey(1)
+				}
+				r.Eval("proof-path/"+kind+"/"+t.key(), true)
+				if err != nil || !bytes.Equal(got, key) {
+					r.Violation(cid, "readback/proof-path-of-a-stored-"+kind+"-is-not-its-store-key", map[string]interface{}{"triple": t.key(), "store_key": string(key), "proof_path_key": string(got), "err": fmt.Sprint(err)})
+					break
+				}
+			}
+		}
+		r.Count("proof_paths_compared_with_store_keys", len(comm)+len(acks))
 		for _, t := range acks {
 			pk.SetPacketAcknowledgement(ctx, t.S, t.D, t.Q, t.V)
 		}
@@ -871,4 +903,11 @@ func heightSpelling(rng *rand.Rand, word string, tail bool) clienttypes.Height {
 		copy(b, word)
 	}
 	return clienttypes.NewHeight(binary.BigEndian.Uint64(b[:8]), binary.BigEndian.Uint64(b[8:]))
+}
+
+func minI(a, b int) int {
+	if a < b {
+		return a
+	}
+	return b
 }
